@@ -449,6 +449,92 @@ theorem incomplete_prefix (m : HsMsg) (hm : MsgOk m) (rest : Bytes) (k : Nat) (h
     rw [hsl, Lemmas.TlsHello.beNat_u24 _ hm, hlen]
     rw [msgLen] at hk; omega
 
+/-- `t` is a proper prefix of the first remaining message (or nothing remains and `t` is empty) -/
+def Tail (t : Bytes) : List HsMsg → Prop
+  | [] => t = []
+  | m :: _ => t.length < msgLen m
+
+theorem plan_gen (rem : List FEv) :
+    ∀ (rm : List HsMsg) (t : Bytes) (base : Nat), (∀ m ∈ rm, MsgOk m) → t ++ hsStream rem = encMsgs rm → Tail t rm →
+      FinsRight (finEnds base rm) (base + t.length) rem → Plan t rem := by
+  induction rem with
+  | nil => intros; trivial
+  | cons e r ih =>
+    intro rm t base hok hstr htail hF
+    cases e with
+    | ccs => exact ih rm t base hok hstr htail hF
+    | app pt f => exact ih rm t base hok hstr htail hF
+    | frag b n f =>
+      obtain ⟨hn, hfr⟩ := hF
+      have hstr' : t ++ (b ++ hsStream r) = encMsgs rm := hstr
+      obtain ⟨c1, c2, c3, c4⟩ := completed_spec rm (t.length + b.length)
+      generalize hnw : (completed rm (t.length + b.length)).1 = nw at *
+      generalize hrm' : (completed rm (t.length + b.length)).2 = rm' at *
+      have henc : encMsgs rm = encMsgs nw ++ encMsgs rm' := by rw [c1, encMsgs_append]
+      have hLle : t.length + b.length ≤ (encMsgs rm).length := by
+        rw [← hstr']; simp only [List.length_append]; omega
+      have htb : t ++ b = encMsgs nw ++ (encMsgs rm').take (t.length + b.length - (encMsgs nw).length) := by
+        have h1 : t ++ b = (encMsgs rm).take (t.length + b.length) := by
+          rw [← hstr', ← List.append_assoc, List.take_left' (by simp)]
+        rw [h1, henc, List.take_append, List.take_of_length_le c2]
+      have hrest : (encMsgs rm').take (t.length + b.length - (encMsgs nw).length) ++ hsStream r = encMsgs rm' := by
+        have h2 : hsStream r = (encMsgs rm).drop (t.length + b.length) := by
+          rw [← hstr', ← List.append_assoc, List.drop_left' (by simp)]
+        rw [h2, henc, List.drop_append, List.drop_eq_nil_of_le c2, List.nil_append, List.take_append_drop]
+      have htl : ((encMsgs rm').take (t.length + b.length - (encMsgs nw).length)).length
+          = t.length + b.length - (encMsgs nw).length := by
+        rw [List.length_take]
+        rw [henc, List.length_append] at hLle
+        omega
+      have hok' : ∀ m ∈ rm', MsgOk m := fun m hm => hok m (by rw [c1]; exact List.mem_append_right _ hm)
+      have hoknw : ∀ m ∈ nw, MsgOk m := fun m hm => hok m (c4 m hm)
+      have htail' : Tail ((encMsgs rm').take (t.length + b.length - (encMsgs nw).length)) rm' := by
+        cases hr : rm' with
+        | nil => simp [Tail, encMsgs]
+        | cons m r' =>
+          have := c3 m r' hr
+          simp only [Tail]
+          rw [← hr, htl]; exact this
+      have hinc : Incomplete ((encMsgs rm').take (t.length + b.length - (encMsgs nw).length)) := by
+        cases hr : rm' with
+        | nil => left; simp [encMsgs]
+        | cons m r' =>
+          rw [encMsgs_cons]
+          exact incomplete_prefix m (hok' m (by rw [hr]; simp)) _ _ (c3 m r' hr)
+      have hlo : ∀ e ∈ finEnds base rm, base + t.length < e := by
+        intro e he
+        cases hr : rm with
+        | nil => rw [hr] at he; simp [finEnds] at he
+        | cons m r0 =>
+          rw [hr] at he htail
+          have := finEnds_ge base m r0 e he
+          simp only [Tail] at htail
+          omega
+      have hcount : n = finCount nw := by
+        have hp : (fun e => decide (base + t.length < e ∧ e ≤ base + t.length + b.length))
+            = (fun e => decide (base + t.length < e ∧ e ≤ base + (t.length + b.length))) := by
+          funext e; rw [Nat.add_assoc]
+        rw [hn, hp, completed_fins rm base (t.length + b.length) (base + t.length) hlo, hnw]
+      refine ⟨nw, _, htb, hinc, hoknw, hcount, ?_⟩
+      apply ih rm' _ (base + (encMsgs nw).length) hok' hrest htail'
+      rw [htl]
+      have hfe : finEnds base rm = finEnds base nw ++ finEnds (base + (encMsgs nw).length) rm' := by
+        rw [c1, finEnds_append]
+      rw [hfe] at hfr
+      have hoff : base + (encMsgs nw).length + (t.length + b.length - (encMsgs nw).length) = base + t.length + b.length := by
+        omega
+      rw [hoff]
+      exact finsRight_drop _ _ r _ (fun a ha => by have := finEnds_le base nw a ha; omega) hfr
+
+/-- RFC-conformant fragmentation (`Spec/TlsFragmented13.FragConform`) yields a plan from the empty buffer -/
+theorem plan_of_conform (l : List FEv) (h : FragConform l) : Plan [] l := by
+  obtain ⟨msgs, hok, hstr, hfr, _⟩ := h
+  apply plan_gen l msgs [] 0 hok (by simp only [List.nil_append]; exact hstr)
+  · cases msgs with
+    | nil => rfl
+    | cons m r => simp only [Tail, msgLen, List.length_nil]; omega
+  · simpa using hfr
+
 -- ------------------------------------------------------------------ when the walk is right
 theorem walk_msgs (ms : List HsMsg) (hok : ∀ m ∈ ms, MsgOk m) (pre : Bytes) (fuel : Nat) (hf : ms.length ≤ fuel) :
     walk (pre ++ encMsgs ms) fuel pre.length = ms.map (·.1) := by
